@@ -116,7 +116,7 @@ impl Property for C14 {
         "C14"
     }
     fn cases(&self, tier: Tier) -> u32 {
-        tier.pick(20_000, 250_000)
+        tier.pick(120_000, 1_200_000)
     }
     fn strategy(&self, _tier: Tier) -> BoxedStrategy<Abs> {
         (
